@@ -22,9 +22,12 @@ PASS_THROUGH = {"unwrap", "expect", "unwrap_or", "unwrap_or_default", "and_then"
 def name_uses(P, floor_fns=None):
     """Classify every use of Element.name / Attribute.name / Attribute.value in user code.
     Yields (body, node, class, detail)."""
+    uni = P.entry_universe()
     for b in P.user_bodies():
         if b["kind"] not in ("Fn", "AssocFn"):
             continue
+        if uni is not None and b["def_path"] not in uni:
+            continue          # not reachable from clean / list / list_all
         locals_alias = {}
         for n, parents in T.walk(b["tree"]):
             if n.get("k") != "field" or n["name"] not in ("name", "value"):
@@ -162,7 +165,21 @@ def run(ctx, res):
     sk = info.get("skip_fn")
     res.obligations += 1
     if sk is None:
-        res.cannot("C06.R2", "remover::is_skip", "anchor", "function is_skip not found")
+        # the predicate was inlined into collect_removable_ranges: it is then one of the atoms of the element table, which
+        # is only classified as `skip` if it reads `any(<element>.start_element.attrs.iter(), {eq($e.name, 'skip')})`
+        skips = set()
+        for o in info.get("outs", []):
+            st_ = {}
+            for k_, v_ in o["decisions"].items():
+                c_ = common.classify_element_atom(k_, v_, st_)
+                if c_ and c_[0] == "skip":
+                    skips.add(k_)
+        want_atom = "any(c.0.start_element.attrs.iter(), {eq($e.name, '%s')})" % kw["skip_attr"]
+        if skips == {want_atom} and not info.get("cannot"):
+            res.discharged += 1
+            res.holds("C06.R2", "code::remover::Remover::collect_removable_ranges", "skip-predicate", want_atom + " (inline)")
+        else:
+            res.cannot("C06.R2", "remover::is_skip", "anchor", "function is_skip not found, and no inline skip test `%s` in collect_removable_ranges (found %s)" % (want_atom, sorted(skips)))
     else:
         I2 = A.Interp(P)
         o2 = I2.explore(lambda J: J.call_fn_body(sk, [A.Sym("el")]))
@@ -250,7 +267,7 @@ def cli_target_default(ctx, res, rule):
     for t in terms:
         feeding |= set(re.findall(r"args\.(\w+)", t))
     n = 0
-    allowed = {"load_removal_marker_target_names(args.removal_marker_target_config.some)", "args.removal_marker_target_name"}
+    allowed = {common.FILE_LINES, "args.removal_marker_target_name"}
     n += 1
     extra = sorted(srcs - allowed) + opaque
     if extra:
